@@ -38,7 +38,11 @@ impl Variable {
             VariableKind::RequestPath => Some(request.path_and_query_skipped.original.clone()),
             VariableKind::RequestRemoteAddress => request.remote_addr.map(|addr| addr.to_string()),
             VariableKind::RequestScheme => request.scheme.clone(),
-            VariableKind::RequestTime => request.created_at.map(|d| d.to_rfc2822()),
+            // to_rfc2822 panics for years outside 0..=9999 (the request time may come from an example or a restored request)
+            VariableKind::RequestTime => request
+                .created_at
+                .filter(|d| (0..=9999).contains(&chrono::Datelike::year(d)))
+                .map(|d| d.to_rfc2822()),
             VariableKind::Marker(marker_name) => markers_captured.get(marker_name.as_str()).cloned(),
         }
         .unwrap_or_default();
